@@ -159,8 +159,26 @@ def count_const(w, cw):
 
 
 @st.composite
-def expr(draw, w, depth=3, mem=True, ops_extra=True):
-    """a well-typed expression script of width w"""
+def expr(draw, w, depth=3, mem=True, ops_extra=True, pool=None):
+    """a well-typed expression script of width w.  `pool` collects the sub-scripts generated so far for this top-level expression:
+    one draw in eight below the root re-uses an earlier sub-script of the same width verbatim (the same condition in a nested
+    conditional, the same term twice under an operator, the same address in two cells) - shapes that independent draws never repeat"""
+    top = pool is None
+    if top:
+        pool = {}
+    key = (w, bool(mem), bool(ops_extra))
+    if not top and pool.get(key) and draw(st.integers(0, 7)) == 0:
+        return draw(st.sampled_from(pool[key]))
+    r_ = draw(_expr(w, depth, mem, ops_extra, pool))
+    if r_[0] not in ("int", "id"):
+        pool.setdefault(key, []).append(r_)
+    return r_
+
+
+@st.composite
+def _expr(draw, w, depth, mem, ops_extra, pool):
+    def expr(w, depth=3, mem=True, ops_extra=ops_extra):
+        return globals()["expr"](w, depth, mem, ops_extra, pool)
     if depth <= 0 or draw(st.integers(0, 9)) < 3:
         r = draw(st.integers(0, 9))
         if r < 4 or (w == 1 and r < 7):
@@ -202,7 +220,17 @@ def expr(draw, w, depth=3, mem=True, ops_extra=True):
         return ["op", "parity", [draw(expr(w, d, mem))]]
     if kind == "cond":
         cw = draw(st.sampled_from(WIDTHS))
-        return ["cond", draw(expr(cw, d, mem)), draw(expr(w, d, mem)), draw(expr(w, d, mem))]
+        c = draw(expr(cw, d, mem))
+        a, b = draw(expr(w, d, mem)), draw(expr(w, d, mem))
+        nest = draw(st.integers(0, 7))
+        if nest < 2:
+            # a conditional on the SAME condition inside one arm (what two shifts by the same count leave in a flag)
+            inner = ["cond", c, draw(expr(w, d - 1, mem)), draw(expr(w, d - 1, mem))]
+            if nest == 0:
+                a = inner
+            else:
+                b = inner
+        return ["cond", c, a, b]
     if kind == "slice":
         bigger = [x for x in WIDTHS if x >= w and x > 1]
         if bigger:
